@@ -706,3 +706,745 @@ Proof.
   destruct (outcome_cases _ _ Hg Hk) as [[o E]|[E|E]]; auto.
   left. destruct (Ho o E) as (p & c & ms & Hn). eauto 10.
 Qed.
+
+(* ------------------------------------------------------------------------------------------------------------ *)
+(* loader level: resolve_module_aliases, one pass over the collection, the fixpoint loop                         *)
+(* ------------------------------------------------------------------------------------------------------------ *)
+Lemma resolve_top_spec : forall coll h i p tp pa w,
+  wf coll h = true -> nth_error h i = Some (NAlias p tp None pa w) ->
+  Post coll h (fst (resolve_top coll h i)) /\ good (snd (resolve_top coll h i)) /\ nokey (snd (resolve_top coll h i)).
+Proof.
+  intros. unfold resolve_top.
+  destruct (resolve_target_spec coll (fuelL h) (fuelN h) h i p tp pa w (P_top _ _ H) H0) as (A & B & C & _). auto.
+Qed.
+
+Lemma deref_top_spec : forall coll h i,
+  wf coll h = true -> i < List.length h ->
+  Post coll h (fst (deref_top coll h i)) /\ good (snd (deref_top coll h i)) /\ nokey (snd (deref_top coll h i)).
+Proof.
+  intros coll h i Hw Hi. unfold deref_top.
+  assert (Hok : ref_ok h (RReal i) = true) by (simpl; apply Nat.ltb_lt; auto).
+  destruct (final_target_top coll (fuelL h) (fuelN h) (resolve_target coll (fuelL h) (fuelN h))
+              (fun h0 i0 p tp pa w => resolve_target_spec coll (fuelL h) (fuelN h) h0 i0 p tp pa w)
+              h (RReal i) (P_top _ _ Hw) Hok) as (A & B & C & _). auto.
+Qed.
+
+Definition seen_le (s s' : list string) : Prop := forall p, mem_str p s = true -> mem_str p s' = true.
+
+Lemma seen_le_refl : forall s, seen_le s s. Proof. red; auto. Qed.
+Lemma seen_le_trans : forall a b c, seen_le a b -> seen_le b c -> seen_le a c. Proof. unfold seen_le; auto. Qed.
+Lemma seen_le_cons : forall s p, seen_le s (p :: s).
+Proof. unfold seen_le. intros. simpl. destruct (String.eqb p0 p); auto. Qed.
+
+Definition unseen_obj (seen : list string) (n : node) : bool :=
+  match n with NObj p _ _ => negb (mem_str p seen) | _ => false end.
+Definition cnt_obj (h : heap) (seen : list string) : nat := List.length (filter (unseen_obj seen) h).
+
+Lemma R_cnt_obj : forall h h' seen, R h h' -> cnt_obj h' seen = cnt_obj h seen.
+Proof.
+  unfold cnt_obj. induction 1; simpl; auto.
+  assert (unseen_obj seen y = unseen_obj seen x).
+  { destruct x, y; simpl in *; try tauto. destruct H as (?&?). subst. auto. }
+  rewrite H1. destruct (unseen_obj seen x); simpl; auto.
+Qed.
+
+Lemma cnt_obj_mono : forall h s s', seen_le s s' -> cnt_obj h s' <= cnt_obj h s.
+Proof.
+  unfold cnt_obj. induction h; simpl; intros; auto. specialize (IHh _ _ H).
+  destruct (unseen_obj s' a) eqn:E.
+  - assert (unseen_obj s a = true).
+    { destruct a; simpl in *; try discriminate. destruct (mem_str path s) eqn:M; auto.
+      rewrite (H _ M) in E. discriminate. }
+    rewrite H0. simpl. lia.
+  - destruct (unseen_obj s a); simpl; lia.
+Qed.
+
+Lemma cnt_obj_cons_lt : forall h seen i p c ms, nth_error h i = Some (NObj p c ms) -> mem_str p seen = false ->
+  cnt_obj h (p :: seen) < cnt_obj h seen.
+Proof.
+  unfold cnt_obj. induction h; destruct i; simpl; intros; try discriminate.
+  - inversion H; subst. simpl. rewrite String.eqb_refl. rewrite H0. simpl.
+    pose proof (cnt_obj_mono h seen (p :: seen) (seen_le_cons _ _)) as X. unfold cnt_obj in X. lia.
+  - specialize (IHh seen i p c ms H H0).
+    pose proof (cnt_obj_mono [a] seen (p :: seen) (seen_le_cons _ _)) as X. unfold cnt_obj in X. simpl in X.
+    destruct (unseen_obj (p :: seen) a); destruct (unseen_obj seen a); simpl in *; lia.
+Qed.
+
+Lemma cnt_obj_le_length : forall h seen, cnt_obj h seen <= List.length h.
+Proof. unfold cnt_obj. induction h; simpl; intros; auto. destruct (unseen_obj seen a); simpl; specialize (IHh seen); lia. Qed.
+
+Section LoaderSpec.
+  Variable coll : list (string * nat).
+
+  Lemma visit_alias_spec : forall a m p p' tp pa w,
+    wf coll (a_heap a) = true -> nth_error (a_heap a) m = Some (NAlias p' tp None pa w) ->
+    Post coll (a_heap a) (a_heap (fst (visit_alias coll a m p))) /\ good (snd (visit_alias coll a m p)) /\
+    nokey (snd (visit_alias coll a m p)) /\ a_seen (fst (visit_alias coll a m p)) = a_seen a.
+  Proof.
+    intros a m p p' tp pa w Hw Hn. unfold visit_alias.
+    destruct (resolve_top_spec coll (a_heap a) m p' tp pa w Hw Hn) as (HPo & Hg & Hk).
+    destruct (resolve_top coll (a_heap a) m) as [h1 r]. simpl in *.
+    destruct r as [u | e].
+    - assert (Hm : m < List.length h1).
+      { rewrite (R_length _ _ (proj1 HPo)). eapply nth_error_lt; eauto. }
+      destruct (deref_top_spec coll h1 m (proj2 HPo) Hm) as (HPo2 & Hg2 & Hk2).
+      destruct (deref_top coll h1 m) as [h2 f]. simpl in *.
+      destruct f as [o | e]; simpl.
+      + split. eapply Post_trans; eauto. split; auto with c06.
+      + split. eapply Post_trans; eauto. split. eapply good_err; eauto. split; auto. eapply nokey_err; eauto.
+    - destruct e; simpl; split; auto; split; auto with c06;
+        try (eapply good_err; eauto); split; auto with c06; try (eapply nokey_err; eauto).
+  Qed.
+
+  Definition obj_unseen (a : acc) (m : nat) : Prop :=
+    exists p c ms, nth_error (a_heap a) m = Some (NObj p c ms) /\ mem_str p (a_seen a) = false.
+
+  Definition rec_spec (d : nat) (recur : acc -> nat -> acc * res unit) : Prop :=
+    forall a m, wf coll (a_heap a) = true -> obj_unseen a m -> cnt_obj (a_heap a) (a_seen a) < d ->
+      Post coll (a_heap a) (a_heap (fst (recur a m))) /\ good (snd (recur a m)) /\ nokey (snd (recur a m)) /\
+      seen_le (a_seen a) (a_seen (fst (recur a m))).
+
+  Lemma members_loop_spec : forall d recur, rec_spec d recur ->
+    forall ms a, wf coll (a_heap a) = true ->
+      forallb (fun kv : string * nat => snd kv <? List.length (a_heap a)) ms = true ->
+      cnt_obj (a_heap a) (a_seen a) < d ->
+      Post coll (a_heap a) (a_heap (fst (members_loop coll recur a ms))) /\ good (snd (members_loop coll recur a ms)) /\
+      nokey (snd (members_loop coll recur a ms)) /\ seen_le (a_seen a) (a_seen (fst (members_loop coll recur a ms))).
+  Proof.
+    intros d recur Hrec. induction ms as [|[nm m] ms]; intros a Hw Hr Hc; simpl.
+    - split. apply Post_refl; auto. split; auto with c06. split; auto with c06. apply seen_le_refl.
+    - simpl in Hr. apply andb_true_iff in Hr. destruct Hr as [Hm Hr]. apply Nat.ltb_lt in Hm.
+      assert (Step : forall a' (r : res unit),
+                Post coll (a_heap a) (a_heap a') -> good r -> nokey r -> seen_le (a_seen a) (a_seen a') ->
+                let res := match r with Err e => (a', Err e) | Ok _ => members_loop coll recur a' ms end in
+                Post coll (a_heap a) (a_heap (fst res)) /\ good (snd res) /\ nokey (snd res) /\
+                seen_le (a_seen a) (a_seen (fst res))).
+      { intros a' r HPo Hg Hk Hs. destruct r as [u | e]; cbv zeta.
+        - assert (Hr' : forallb (fun kv : string * nat => snd kv <? List.length (a_heap a')) ms = true).
+          { rewrite (R_length _ _ (proj1 HPo)). auto. }
+          assert (Hc' : cnt_obj (a_heap a') (a_seen a') < d).
+          { rewrite (R_cnt_obj _ _ _ (proj1 HPo)). pose proof (cnt_obj_mono (a_heap a) _ _ Hs). lia. }
+          destruct (IHms a' (proj2 HPo) Hr' Hc') as (A & B & C & D).
+          split. eapply Post_trans; eauto. split; auto. split; auto. eapply seen_le_trans; eauto.
+        - simpl. auto. }
+      destruct (nth_error (a_heap a) m) as [[mp c mms | p tp t pa w]|] eqn:Hn.
+      + destruct (c && negb (mem_str mp (a_seen a))) eqn:Hcond.
+        * apply andb_true_iff in Hcond. destruct Hcond as [_ Hcond]. apply negb_true_iff in Hcond.
+          assert (Hou : obj_unseen a m) by (red; eauto).
+          destruct (Hrec a m Hw Hou Hc) as (A & B & C & D).
+          destruct (recur a m) as [a' r]. simpl in *. apply (Step a' r); auto.
+        * apply IHms; auto.
+      + destruct (w || match t with Some _ => true | None => false end) eqn:Hcond.
+        * apply IHms; auto.
+        * apply orb_false_iff in Hcond. destruct Hcond as [_ Ht]. destruct t; try discriminate.
+          destruct (visit_alias_spec a m p p tp pa w Hw Hn) as (A & B & C & D).
+          destruct (visit_alias coll a m p) as [a' r]. simpl in *. apply (Step a' r); auto.
+          rewrite D. apply seen_le_refl.
+      + apply nth_error_None in Hn. lia.
+  Qed.
+
+  Lemma rma_spec : forall d, rec_spec d (rma coll d).
+  Proof.
+    induction d; intros a o Hw (p & c & ms & Hn & Hmem) Hc. lia.
+    simpl. rewrite Hn.
+    set (a0 := mkAcc (a_heap a) (p :: a_seen a) (a_resolved a) (a_unresolved a)).
+    assert (Hc0 : cnt_obj (a_heap a0) (a_seen a0) < d).
+    { simpl. pose proof (cnt_obj_cons_lt _ _ _ _ _ _ Hn Hmem). lia. }
+    pose proof (wf_node _ _ _ _ Hw Hn) as Hms. simpl in Hms.
+    destruct (members_loop_spec d (rma coll d) IHd ms a0 Hw Hms Hc0) as (A & B & C & D).
+    split; auto. split; auto. split; auto. eapply seen_le_trans; [apply seen_le_cons | exact D].
+  Qed.
+
+  Opaque rma.
+  Lemma pass_modules_spec : forall mods h unres,
+    wf coll h = true ->
+    (forall kv, In kv mods -> exists p c ms, nth_error h (snd kv) = Some (NObj p c ms)) ->
+    Post coll h (fst (pass_modules coll h mods unres)) /\ good (snd (pass_modules coll h mods unres)) /\
+    nokey (snd (pass_modules coll h mods unres)).
+  Proof.
+    induction mods as [|[nm m] mods]; intros h unres Hw Hm; simpl.
+    - split. apply Post_refl; auto. split; auto with c06.
+    - set (a0 := mkAcc h [] [] unres).
+      destruct (Hm (nm, m) (or_introl eq_refl)) as (p & c & ms & Hn).
+      assert (Hou : obj_unseen a0 m) by (red; simpl; eauto).
+      assert (Hc : cnt_obj (a_heap a0) (a_seen a0) < S (List.length h)).
+      { simpl. pose proof (cnt_obj_le_length h []). lia. }
+      destruct (rma_spec (S (List.length h)) a0 m Hw Hou Hc) as (A & B & C & _).
+      destruct (rma coll (S (List.length h)) a0 m) as [a r]. simpl in A, B, C.
+      destruct r as [u | e].
+      + assert (Hm' : forall kv, In kv mods -> exists p c ms, nth_error (a_heap a) (snd kv) = Some (NObj p c ms)).
+        { intros kv Hin. destruct (Hm kv (or_intror Hin)) as (p' & c' & ms' & Hn'). exists p', c', ms'.
+          eapply R_nth_obj; eauto. apply A. }
+        destruct (IHmods (a_heap a) (a_unresolved a) (proj2 A) Hm') as (A2 & B2 & C2).
+        simpl. split. eapply Post_trans; eauto. auto.
+      + simpl. split; auto. split. eapply good_err; eauto. eapply nokey_err; eauto.
+  Qed.
+
+  Transparent rma.
+
+  Lemma one_pass_spec : forall h, wf coll h = true ->
+    Post coll h (fst (one_pass coll h)) /\ good (snd (one_pass coll h)) /\ nokey (snd (one_pass coll h)).
+  Proof.
+    intros. unfold one_pass. apply pass_modules_spec; auto.
+    intros kv Hin. unfold wf, coll_ok in H. apply andb_true_iff in H. destruct H as [_ H].
+    rewrite forallb_forall in H. specialize (H kv Hin).
+    destruct (nth_error h (snd kv)) as [[| ]|]; try discriminate. eauto.
+  Qed.
+End LoaderSpec.
+
+(* the while loop of resolve_aliases: every pass that does not end the loop stores at least one new link *)
+Definition unres_node (n : node) : bool := match n with NAlias _ _ None _ _ => true | _ => false end.
+Definition unres_count (h : heap) : nat := List.length (filter unres_node h).
+
+Lemma unres_le_count : forall h, unres_count h <= count_aliases h.
+Proof.
+  unfold unres_count, count_aliases. induction h; simpl; auto.
+  destruct a; simpl; auto. destruct target; simpl; lia.
+Qed.
+
+Lemma R_unres : forall h h', R h h' -> unres_count h' <= unres_count h /\ (unres_count h' = unres_count h -> h' = h).
+Proof.
+  unfold unres_count. induction 1; simpl. auto.
+  destruct IHForall2 as [IH1 IH2].
+  destruct x as [p c ms | p tp t pa w], y as [p' c' ms' | p' tp' t' pa' w']; simpl in H; try tauto.
+  - destruct H as (?&?&?). subst. simpl. split; auto. intros. f_equal. auto.
+  - destruct H as (?&?&?&?&Ht). subst. destruct Ht as [Ht | [Ht Hp]]; subst.
+    + destruct t; simpl; split; try lia; intros; f_equal; apply IH2; lia.
+    + destruct t'; simpl; split; try lia; intros; try (f_equal; apply IH2; lia).
+Qed.
+
+Lemma incl_str_refl : forall l, incl_str l l = true.
+Proof.
+  unfold incl_str. intros. apply forallb_forall. intros x Hx. apply mem_str_In. auto.
+Qed.
+
+Lemma set_eq_refl : forall l, set_eq l l = true.
+Proof. unfold set_eq. intros. rewrite incl_str_refl. auto. Qed.
+
+Lemma ra_loop_spec : forall coll k h prev it,
+  wf coll h = true -> unres_count h + 2 <= k ->
+  Post coll h (fst (ra_loop coll k h prev it)) /\ good (snd (ra_loop coll k h prev it)) /\
+  nokey (snd (ra_loop coll k h prev it)).
+Proof.
+  induction k; intros h prev it Hw Hk. lia.
+  simpl. destruct (one_pass_spec coll h Hw) as (HPo & Hg & Hkk).
+  destruct (one_pass coll h) as [h' r] eqn:E1. simpl in *.
+  destruct r as [unres | e].
+  2:{ simpl. split; auto. split. eapply good_err; eauto. eapply nokey_err; eauto. }
+  destruct unres as [|u0 us].
+  { simpl. split; auto. split; auto with c06. }
+  destruct (set_eq (u0 :: us) prev).
+  { simpl. split; auto. split; auto with c06. }
+  destruct (R_unres _ _ (proj1 HPo)) as [Hle Heq].
+  destruct (Nat.eq_dec (unres_count h') (unres_count h)) as [Hsame | Hless].
+  - (* nothing changed in this pass: the next pass repeats it and the loop stops *)
+    specialize (Heq Hsame). subst h'.
+    destruct k as [|k']. lia.
+    simpl. rewrite E1. rewrite set_eq_refl. simpl. split; auto. split; auto with c06.
+  - assert (Hk' : unres_count h' + 2 <= k) by lia.
+    destruct (IHk h' (u0 :: us) (S it) (proj2 HPo) Hk') as (A & B & C).
+    split. eapply Post_trans; eauto. auto.
+Qed.
+
+(* GriffeLoader.resolve_aliases on any well-formed heap: the loop stops within #aliases+2 passes, the recursions never
+   run out of fuel, flags are restored, stored links untouched; the only errors that can leave it are the two alias
+   errors (from the eager `member.final_target.path` of the debug message). *)
+Theorem resolve_aliases_total : forall coll h,
+  wf coll h = true ->
+  let h' := fst (resolve_aliases coll h) in
+  let r := snd (resolve_aliases coll h) in
+  ((exists u it, r = Ok (u, it)) \/ (exists q, r = Err (EARE q)) \/ r = Err ECyc) /\
+  wf coll h' = true /\ flags h' = flags h /\ (forall j t, link_of h j = Some t -> link_of h' j = Some t).
+Proof.
+  intros coll h Hw. unfold resolve_aliases.
+  assert (Hk : unres_count h + 2 <= count_aliases h + 2) by (pose proof (unres_le_count h); lia).
+  destruct (ra_loop_spec coll (count_aliases h + 2) h [] 0 Hw Hk) as ((HR & Hw') & Hg & Hkk).
+  cbv zeta. split; [|split; [auto | split; [apply R_flags; auto | intros; eapply R_link; eauto]]].
+  destruct (outcome_cases _ _ Hg Hkk) as [[[u it] E]|[E|E]]; eauto.
+Qed.
+
+(* Fixpoint, conditional form: once a pass over the collection changes nothing, resolve_aliases is a no-op that
+   returns that pass' unresolved set. *)
+Theorem fixpoint_after_quiet_pass : forall coll h u,
+  one_pass coll h = (h, Ok u) ->
+  exists it, resolve_aliases coll h = (h, Ok (u, it)) /\ it <= 2.
+Proof.
+  intros coll h u E. unfold resolve_aliases.
+  replace (count_aliases h + 2) with (S (S (count_aliases h))) by lia.
+  simpl. rewrite E. destruct u as [|u0 us].
+  - exists 1. auto.
+  - unfold set_eq at 1. simpl. rewrite E. rewrite set_eq_refl. exists 2. auto.
+Qed.
+
+(* ------------------------------------------------------------------------------------------------------------ *)
+(* witnesses: heaps abstracted from real packages (harness/props/c06.py prints them; replayed on the implementation *)
+(* on every run as known findings C06-F3 / C06-F4)                                                                *)
+(* ------------------------------------------------------------------------------------------------------------ *)
+(* {"p": "import p.b as m", "p.b": "from p.zz import x", "p.a": "from p.m import x"} *)
+Definition w_through_coll : list (string * nat) := [("p", 0)].
+Definition w_through_heap : heap :=
+  [ NObj "p" true [("m", 1); ("a", 2); ("b", 4)];
+    NAlias "p.m" ["p"; "b"] None false false;
+    NObj "p.a" true [("x", 3)];
+    NAlias "p.a.x" ["p"; "m"; "x"] None false false;
+    NObj "p.b" true [("x", 5)];
+    NAlias "p.b.x" ["p"; "zz"; "x"] None false false ].
+
+(* {"p": "from p.a import *", "p.a": "from p.zz import x", "p.b": "from p import x", "p.c": "from p.b import x"},
+   after wildcard expansion: p.x is stored onto the unresolved alias p.a.x *)
+Definition w_pre_coll : list (string * nat) := [("p", 0)].
+Definition w_pre_heap : heap :=
+  [ NObj "p" true [("a", 1); ("c", 3); ("b", 5); ("x", 7)];
+    NObj "p.a" true [("x", 2)];
+    NAlias "p.a.x" ["p"; "zz"; "x"] None false false;
+    NObj "p.c" true [("x", 4)];
+    NAlias "p.c.x" ["p"; "b"; "x"] None false false;
+    NObj "p.b" true [("x", 6)];
+    NAlias "p.b.x" ["p"; "x"] None false false;
+    NAlias "p.x" ["p"; "a"; "x"] (Some (RReal 2)) false false ].
+
+(* a plain resolvable chain, a cycle, and a dangling chain: the hypotheses of the theorems are satisfiable and every
+   outcome class is reached *)
+Definition w_plain_coll : list (string * nat) := [("p", 0)].
+Definition w_plain_heap : heap :=
+  [ NObj "p" true [("x", 1); ("a", 2); ("y", 6); ("z", 7)];
+    NAlias "p.x" ["p"; "a"; "x"] None false false;
+    NObj "p.a" true [("x", 3); ("f", 4); ("y", 5)];
+    NAlias "p.a.x" ["p"; "a"; "f"] None false false;
+    NObj "p.a.f" false [];
+    NAlias "p.a.y" ["p"; "y"] None false false;
+    NAlias "p.y" ["p"; "a"; "y"] None false false;
+    NAlias "p.z" ["p"; "zz"; "z"] None false false ].
+
+Example plain_hypotheses :
+  wf w_plain_coll w_plain_heap = true /\ direct w_plain_coll w_plain_heap = true /\
+  chains_complete w_plain_heap = true /\ unique_paths w_plain_heap = true /\ no_passed w_plain_heap = true.
+Proof. vm_compute. auto. Qed.
+
+Example plain_outcomes :
+  snd (resolve_top w_plain_coll w_plain_heap 1) = Ok tt /\
+  snd (deref_top w_plain_coll w_plain_heap 1) = Ok 4 /\
+  snd (resolve_top w_plain_coll w_plain_heap 5) = Err ECyc /\
+  snd (resolve_top w_plain_coll w_plain_heap 7) = Err (EARE "p.z") /\
+  snd (resolve_aliases w_plain_coll w_plain_heap) = Ok (["p.z"], 2) /\
+  chains_complete (fst (resolve_aliases w_plain_coll w_plain_heap)) = true.
+Proof. vm_compute. auto 10. Qed.
+
+(* All-or-nothing is FALSE of the unchanged code when a target path runs through an alias member (no wildcard
+   involved): resolve_target on p.a.x fails with AliasResolutionError(p.b.x) after storing p.a.x's link. *)
+Lemma all_or_nothing_refuted_passthrough :
+  exists coll h i,
+    wf coll h = true /\ no_passed h = true /\ unique_paths h = true /\ chains_complete h = true /\
+    snd (resolve_top coll h i) = Err (EARE "p.b.x") /\
+    link_of h i = None /\ link_of (fst (resolve_top coll h i)) i = Some (RVirt "p.m.x" 5) /\
+    chains_complete (fst (resolve_top coll h i)) = false.
+Proof. exists w_through_coll, w_through_heap, 3. vm_compute. auto 10. Qed.
+
+(* ... and when wildcard expansion has stored a first link onto an unresolved alias (direct heap): *)
+Lemma all_or_nothing_refuted_preresolved :
+  exists coll h i,
+    wf coll h = true /\ no_passed h = true /\ unique_paths h = true /\ direct coll h = true /\
+    snd (resolve_top coll h i) = Err (EARE "p.a.x") /\
+    link_of h i = None /\ link_of (fst (resolve_top coll h i)) i = Some (RReal 7).
+Proof. exists w_pre_coll, w_pre_heap, 6. vm_compute. auto 10. Qed.
+
+(* The return value of resolve_aliases is not a fixpoint on such heaps: the first call reports p.c.x as unresolved
+   although its link is stored, the second call no longer does. *)
+Lemma fixpoint_refuted :
+  exists coll h,
+    wf coll h = true /\ no_passed h = true /\ unique_paths h = true /\ direct coll h = true /\
+    snd (resolve_aliases coll h) = Ok (["p.c.x"; "p.a.x"], 2) /\
+    snd (resolve_aliases coll (fst (resolve_aliases coll h))) = Ok (["p.a.x"], 2).
+Proof. exists w_pre_coll, w_pre_heap. vm_compute. auto 10. Qed.
+
+(* ------------------------------------------------------------------------------------------------------------ *)
+(* all-or-nothing on direct heaps without pre-stored dangling links                                              *)
+(* ------------------------------------------------------------------------------------------------------------ *)
+Lemma static_from_update : forall parts h i n n' j,
+  nth_error h i = Some n -> is_alias_node n = true -> is_alias_node n' = true ->
+  static_from (update h i n') j parts = static_from h j parts.
+Proof.
+  induction parts as [|name rest]; intros; simpl; auto.
+  destruct (Nat.eq_dec i j).
+  - subst. rewrite nth_update_same by (eapply nth_error_lt; eauto). rewrite H.
+    destruct n; try discriminate. destruct n'; try discriminate. auto.
+  - rewrite nth_update_other; auto. destruct (nth_error h j) as [[p c ms| ]|]; auto.
+    destruct (lookup name ms); auto. eapply IHrest; eauto.
+Qed.
+
+Lemma static_get_update : forall coll parts h i n n',
+  nth_error h i = Some n -> is_alias_node n = true -> is_alias_node n' = true ->
+  static_get coll (update h i n') parts = static_get coll h parts.
+Proof.
+  intros. destruct parts; simpl; auto. destruct (lookup s coll); auto. eapply static_from_update; eauto.
+Qed.
+
+Lemma get_from_static : forall L rt parts h j x,
+  static_from h j parts = Some x ->
+  get_from L rt h (RReal j) parts = (h, match x with Some k => Ok (RReal k) | None => Err EKey end).
+Proof.
+  induction parts as [|name rest]; intros h j x Hs; simpl in *.
+  - inversion Hs; subst. auto.
+  - destruct (nth_error h j) as [[p c ms| ]|] eqn:Hn; try discriminate. simpl.
+    destruct (lookup name ms) as [k|].
+    + apply IHrest; auto.
+    + inversion Hs; subst. auto.
+Qed.
+
+Lemma get_member_static : forall coll L rt h parts x,
+  static_get coll h parts = Some x ->
+  get_member coll L rt h parts = (h, match x with Some k => Ok (RReal k) | None => Err EKey end).
+Proof.
+  intros. destruct parts as [|top rest]; simpl in *. discriminate.
+  destruct (lookup top coll).
+  - apply get_from_static; auto.
+  - inversion H; subst. auto.
+Qed.
+
+Lemma chain_end_update_unres : forall l h i p tp pa w n' r seen o,
+  nth_error h i = Some (NAlias p tp None pa w) ->
+  chain_end l h r seen = Some o -> chain_end l (update h i n') r seen = Some o.
+Proof.
+  induction l; intros h i p tp pa w n' r seen o Hn Hc; simpl in *. discriminate.
+  destruct r as [k | vp k].
+  - destruct (Nat.eq_dec i k).
+    + subst. rewrite Hn in Hc. discriminate.
+    + rewrite nth_update_other; auto. destruct (nth_error h k) as [[| pk tpk [t|] pak wk]|]; auto.
+      destruct (mem_str pk seen); auto. eapply IHl; eauto.
+  - destruct (mem_str vp seen); auto. eapply IHl; eauto.
+Qed.
+
+(* every stored link is a real node *)
+Definition no_virt (h : heap) : Prop :=
+  forall k p tp vp j pa w, nth_error h k <> Some (NAlias p tp (Some (RVirt vp j)) pa w).
+
+Lemma chain_end_seen : forall l h q r seen seen' o,
+  no_virt h ->
+  (forall k p tp t pa w, nth_error h k = Some (NAlias p tp (Some t) pa w) -> p <> q) ->
+  (forall s, s <> q -> mem_str s seen' = mem_str s seen) ->
+  (exists k, r = RReal k) ->
+  chain_end l h r seen = Some o -> chain_end l h r seen' = Some o.
+Proof.
+  induction l; intros h q r seen seen' o Hnv Hq Hs [k Hr] Hc; simpl in *. discriminate. subst r.
+  destruct (nth_error h k) as [[| pk tpk [t|] pak wk]|] eqn:Hn; auto.
+  assert (Hpk : pk <> q) by (eapply Hq; eauto).
+  rewrite (Hs pk Hpk). destruct (mem_str pk seen); auto.
+  destruct t as [k' | vp k']. 2:{ exfalso. eapply Hnv; eauto. }
+  apply (IHl h q (RReal k') (pk :: seen) (pk :: seen') o); eauto.
+  intros s Hsq. simpl. rewrite (Hs s Hsq). auto.
+Qed.
+
+Lemma chain_end_fuel : forall l h r seen o,
+  chain_end l h r seen = Some o -> forall l', 2 * cnt_unseen h seen + vbit r < l' -> chain_end l' h r seen = Some o.
+Proof.
+  induction l; intros h r seen o Hc l' Hl; simpl in *. discriminate.
+  destruct l' as [|l']. lia. simpl.
+  destruct r as [k | vp k].
+  - destruct (nth_error h k) as [[| pk tpk [t|] pak wk]|] eqn:Hn; auto.
+    destruct (mem_str pk seen) eqn:Hm; auto.
+    eapply IHl; eauto.
+    pose proof (cnt_unseen_cons_lt h seen k _ Hn eq_refl Hm) as X. simpl in X.
+    assert (vbit t <= 1) by (destruct t; simpl; lia). simpl in Hl. lia.
+  - destruct (mem_str vp seen); auto. eapply IHl; eauto.
+    pose proof (cnt_unseen_cons_le h seen vp). simpl in *. lia.
+Qed.
+
+Lemma final_target_pure : forall rt l h r seen o,
+  chain_end l h r seen = Some o -> final_target rt l h r seen = (h, Ok o).
+Proof.
+  induction l; intros h r seen o Hc; simpl in *. discriminate.
+  destruct r as [k | vp k]; simpl.
+  - destruct (nth_error h k) as [[| pk tpk [t|] pak wk]|] eqn:Hn; try discriminate; simpl.
+    + inversion Hc; subst. auto.
+    + destruct (mem_str pk seen); try discriminate. apply IHl; auto.
+  - destruct (mem_str vp seen); try discriminate. apply IHl; auto.
+Qed.
+
+Lemma alias_paths_update : forall h i n n',
+  nth_error h i = Some n -> is_alias_node n = true -> is_alias_node n' = true -> node_path n' = node_path n ->
+  alias_paths (update h i n') = alias_paths h.
+Proof.
+  unfold alias_paths. induction h; destruct i; simpl; intros; try discriminate.
+  - inversion H; subst. rewrite H0, H1. simpl. congruence.
+  - destruct (is_alias_node a); simpl; erewrite IHh; eauto.
+Qed.
+
+Lemma mem_str_map_path : forall h k n, nth_error h k = Some n -> is_alias_node n = true ->
+  mem_str (node_path n) (alias_paths h) = true.
+Proof.
+  intros. apply mem_str_In. unfold alias_paths. apply in_map. apply filter_In. split; auto.
+  eapply nth_error_In; eauto.
+Qed.
+
+(* with unique alias paths, two alias nodes with the same path are the same node *)
+Lemma unique_paths_inj : forall h i j n m,
+  unique_paths h = true -> nth_error h i = Some n -> nth_error h j = Some m ->
+  is_alias_node n = true -> is_alias_node m = true -> node_path n = node_path m -> i = j.
+Proof.
+  unfold unique_paths, alias_paths. induction h; intros i j n m Hu Hi Hj Hn Hm Hp.
+  - destruct i; discriminate.
+  - destruct i, j; simpl in *; auto.
+    + inversion Hi; subst. rewrite Hn in Hu. simpl in Hu. apply andb_true_iff in Hu. destruct Hu as [Hu _].
+      apply negb_true_iff in Hu. rewrite Hp in Hu.
+      pose proof (mem_str_map_path h j m Hj Hm) as X. unfold alias_paths in X. congruence.
+    + inversion Hj; subst. rewrite Hm in Hu. simpl in Hu. apply andb_true_iff in Hu. destruct Hu as [Hu _].
+      apply negb_true_iff in Hu. rewrite <- Hp in Hu.
+      pose proof (mem_str_map_path h i n Hi Hn) as X. unfold alias_paths in X. congruence.
+    + f_equal. eapply IHh; eauto. destruct (is_alias_node a); simpl in Hu; auto.
+      apply andb_true_iff in Hu. tauto.
+Qed.
+
+Definition Inv (coll : list (string * nat)) (L : nat) (h : heap) : Prop :=
+  wf coll h = true /\ direct coll h = true /\ chains_complete_L L h = true /\ unique_paths h = true /\
+  2 * count_aliases h + 2 < L.
+
+Lemma direct_nth : forall coll h i p tp t pa w, direct coll h = true -> nth_error h i = Some (NAlias p tp t pa w) ->
+  (exists x, static_get coll h tp = Some x) /\ (forall vp j, t <> Some (RVirt vp j)).
+Proof.
+  unfold direct. intros. pose proof (forallb_nth _ _ _ _ _ H H0) as X. simpl in X.
+  apply andb_true_iff in X. destruct X as [X1 X2]. split.
+  - destruct (static_get coll h tp); try discriminate. eauto.
+  - intros vp j E. subst. discriminate.
+Qed.
+
+Lemma direct_no_virt : forall coll h, direct coll h = true -> no_virt h.
+Proof.
+  intros coll h Hd k p tp vp j pa w E. destruct (direct_nth _ _ _ _ _ _ _ _ Hd E) as [_ X]. eapply X; eauto.
+Qed.
+
+Lemma forallb_of_nth : forall A (g : A -> bool) l, (forall k n, nth_error l k = Some n -> g n = true) -> forallb g l = true.
+Proof.
+  intros. apply forallb_forall. intros x Hx. destruct (In_nth_error _ _ Hx) as [k Hk]. eauto.
+Qed.
+
+Lemma forallb_update_ix : forall (f g : node -> bool) (h : heap) i n',
+  forallb f h = true -> g n' = true ->
+  (forall k n, k <> i -> nth_error h k = Some n -> f n = true -> g n = true) ->
+  forallb g (update h i n') = true.
+Proof.
+  intros f g h i n' Hf Hg Hother. apply forallb_of_nth. intros k n Hk.
+  destruct (Nat.eq_dec i k).
+  - subst. assert (k < List.length h).
+    { apply nth_error_lt in Hk. rewrite update_length in Hk. auto. }
+    rewrite nth_update_same in Hk; auto. congruence.
+  - rewrite nth_update_other in Hk; auto. eapply Hother; eauto. eapply forallb_nth; eauto.
+Qed.
+
+Lemma direct_update : forall coll h i p tp t pa w t' pa',
+  direct coll h = true -> nth_error h i = Some (NAlias p tp t pa w) -> (forall vp j, t' <> Some (RVirt vp j)) ->
+  direct coll (update h i (NAlias p tp t' pa' w)) = true.
+Proof.
+  intros coll h i p tp t pa w t' pa' Hd Hn Ht. unfold direct in *.
+  set (n' := NAlias p tp t' pa' w).
+  assert (Hst : forall parts, static_get coll (update h i n') parts = static_get coll h parts).
+  { intros. eapply static_get_update; eauto. }
+  eapply forallb_update_ix; [exact Hd | |].
+  - simpl. rewrite Hst. destruct (direct_nth _ _ _ _ _ _ _ _ Hd Hn) as [[x Hx] _]. rewrite Hx. simpl.
+    destruct t' as [[|vp j]|]; auto. exfalso. eapply Ht; eauto.
+  - intros k n _ _ Hf. destruct n; auto. rewrite Hst. auto.
+Qed.
+
+Lemma cc_update : forall L h i p tp pa w n',
+  chains_complete_L L h = true -> nth_error h i = Some (NAlias p tp None pa w) ->
+  complete_at L (update h i n') n' = true -> chains_complete_L L (update h i n') = true.
+Proof.
+  intros L h i p tp pa w n' Hc Hn Hn'. unfold chains_complete_L in *.
+  eapply forallb_update_ix; [exact Hc | exact Hn' |].
+  intros k n _ _ Hf. destruct n as [| pk tpk [t|] pak wk]; auto. simpl in *.
+  destruct (chain_end L h t [pk]) as [o|] eqn:E; try discriminate.
+  erewrite chain_end_update_unres; eauto.
+Qed.
+
+Lemma unique_update : forall h i p tp t pa w t' pa',
+  unique_paths h = true -> nth_error h i = Some (NAlias p tp t pa w) ->
+  unique_paths (update h i (NAlias p tp t' pa' w)) = true.
+Proof. unfold unique_paths. intros. erewrite alias_paths_update; eauto. Qed.
+
+Lemma Inv_flag : forall coll L h i p tp w,
+  Inv coll L h -> nth_error h i = Some (NAlias p tp None false w) ->
+  Inv coll L (update h i (NAlias p tp None true w)).
+Proof.
+  intros coll L h i p tp w (Hw & Hd & Hc & Hu & Hl) Hn. split; [|split; [|split; [|split]]].
+  - eapply wf_update_alias; eauto. pose proof (wf_node _ _ _ _ Hw Hn). auto.
+  - eapply direct_update; eauto. intros; discriminate.
+  - eapply cc_update; eauto.
+  - eapply unique_update; eauto.
+  - erewrite count_aliases_update; eauto.
+Qed.
+
+Lemma static_from_range : forall coll h parts i j, wf coll h = true -> i < List.length h ->
+  static_from h i parts = Some (Some j) -> j < List.length h.
+Proof.
+  induction parts as [|name rest]; intros i j Hw Hi Hs; simpl in *.
+  - inversion Hs; subst; auto.
+  - destruct (nth_error h i) as [[p c ms| ]|] eqn:Hn; try discriminate.
+    destruct (lookup name ms) as [k|] eqn:Hl; try discriminate.
+    pose proof (wf_node _ _ _ _ Hw Hn) as Hms. simpl in Hms.
+    apply (IHrest k j); auto. eapply lookup_in_range; eauto.
+Qed.
+
+Lemma static_get_range : forall coll h parts j, wf coll h = true ->
+  static_get coll h parts = Some (Some j) -> j < List.length h.
+Proof.
+  intros. destruct parts as [|top rest]; simpl in *. discriminate.
+  destruct (lookup top coll) as [m|] eqn:Hl; try discriminate.
+  destruct (wf_coll _ _ _ _ H Hl) as (p & c & ms & Hn).
+  eapply static_from_range; eauto. eapply nth_error_lt; eauto.
+Qed.
+
+Definition aon_result (coll : list (string * nat)) (L : nat) (h : heap) (i : nat) (X : heap * res unit) : Prop :=
+  (snd X = Ok tt /\ Inv coll L (fst X) /\ R h (fst X) /\ resolved_in (fst X) i) \/
+  (exists e, snd X = Err e /\ fst X = h).
+
+Definition aon_spec (coll : list (string * nat)) (L : nat) (rt : heap -> nat -> heap * res unit) : Prop :=
+  forall h i p tp pa w, Inv coll L h -> nth_error h i = Some (NAlias p tp None pa w) -> aon_result coll L h i (rt h i).
+
+(* the end of _resolve_target once the target node j is known and resolved: store the link, dereference it *)
+Definition tail (L : nat) (rt : heap -> nat -> heap * res unit) (i j : nat) (h2 : heap) : heap * res unit :=
+  let h3 := set_target h2 i (RReal j) in
+  match ref_is_alias h3 (RReal j) with
+  | None => (h3, Err EBad)
+  | Some false => (h3, Ok tt)
+  | Some true =>
+      let '(h4, f) := final_target rt L h3 (RReal j) [] in
+      match f with Err e => (h4, Err e) | Ok _ => (h4, Ok tt) end
+  end.
+
+Lemma resolve_body_aon : forall coll L rt, aon_spec coll L rt -> aon_spec coll L (resolve_body coll L rt).
+Proof.
+  intros coll L rt Hrt h i p tp pa w HI Hn. unfold resolve_body. rewrite Hn. destruct pa.
+  { right. exists ECyc. simpl. auto. }
+  assert (Ehh : set_passed h i true = update h i (NAlias p tp None true w)) by (unfold set_passed; rewrite Hn; auto).
+  rewrite Ehh. clear Ehh. set (hh := update h i (NAlias p tp None true w)).
+  assert (Hi : i < List.length h) by (eapply nth_error_lt; eauto).
+  assert (Hnh : nth_error hh i = Some (NAlias p tp None true w)) by (apply nth_update_same; auto).
+  assert (Back : set_passed hh i false = h).
+  { unfold set_passed. rewrite Hnh. unfold hh. rewrite update_update. apply update_id. exact Hn. }
+  assert (HIh : Inv coll L hh) by (eapply Inv_flag; eauto).
+  pose proof HIh as (Hwh & Hdh & Hch & Huh & Hlh).
+  destruct (direct_nth _ _ _ _ _ _ _ _ Hdh Hnh) as [[x Hx] _].
+  unfold resolve_inner. rewrite (get_member_static coll L rt hh tp x Hx).
+  destruct x as [j|].
+  2:{ right. exists (EARE p). simpl. auto. }
+  pose proof (static_get_range _ _ _ _ Hwh Hx) as Hj.
+  simpl ref_eqb. destruct (Nat.eqb j i) eqn:Eji.
+  { right. exists ECyc. simpl. auto. }
+  apply Nat.eqb_neq in Eji.
+  assert (Tail : forall h2, Inv coll L h2 -> R hh h2 ->
+            ((exists pj c ms, nth_error h2 j = Some (NObj pj c ms)) \/ resolved_in h2 j) ->
+            aon_result coll L h i (let '(h1, r) := tail L rt i j h2 in (set_passed h1 i false, r))).
+  { intros h2 (Hw2 & Hd2 & Hc2 & Hu2 & Hl2) HR2 Hj2.
+    destruct (R_nth_alias _ _ _ _ _ _ _ _ HR2 Hnh) as (t2 & Hn2 & Ht2).
+    assert (t2 = None) by (destruct Ht2 as [?|[_ ?]]; [auto | discriminate]). subst t2. clear Ht2.
+    unfold tail, set_target. rewrite Hn2. set (h3 := update h2 i (NAlias p tp (Some (RReal j)) true w)).
+    assert (Hi2 : i < List.length h2) by (eapply nth_error_lt; eauto).
+    assert (Hn3 : nth_error h3 i = Some (NAlias p tp (Some (RReal j)) true w)) by (apply nth_update_same; auto).
+    assert (Hj3 : nth_error h3 j = nth_error h2 j) by (apply nth_update_other; auto).
+    assert (Hj2len : j < List.length h2) by (rewrite (R_length _ _ HR2); auto).
+    assert (Hw3 : wf coll h3 = true).
+    { eapply wf_update_alias; eauto. simpl. pose proof (wf_node _ _ _ _ Hw2 Hn2) as X. simpl in X.
+      apply andb_true_iff in X. destruct X as [X _]. rewrite X. simpl. apply Nat.ltb_lt. auto. }
+    assert (Hx3 : Rx i h h3).
+    { eapply Rx_trans; [apply Rx_update|]. eapply Rx_trans; [apply Rx_of_R; exact HR2|]. apply Rx_update. }
+    destruct (finish coll h i p tp w h3 (Some (RReal j)) Hw3 Hn Hx3 Hn3) as ((FR & Fw) & Fn).
+    set (nf := NAlias p tp (Some (RReal j)) false w).
+    assert (Ehf : set_passed h3 i false = update h2 i nf).
+    { unfold set_passed. rewrite Hn3. unfold h3. apply update_update. }
+    assert (Done : complete_at L (update h2 i nf) nf = true -> aon_result coll L h i (set_passed h3 i false, Ok tt)).
+    { intros Fc. left. simpl. rewrite Ehf in *. split; auto. split; [|split; auto].
+      - split; auto. split; [|split; [|split]].
+        + eapply direct_update; eauto. intros; discriminate.
+        + eapply cc_update; eauto.
+        + eapply unique_update; eauto.
+        + erewrite count_aliases_update; eauto.
+      - red. exists p, tp, (RReal j), false, w. apply nth_update_same; auto. }
+    assert (HL : exists L', L = S L') by (destruct L; [lia | eauto]). destruct HL as [L' HL].
+    simpl ref_is_alias. rewrite Hj3.
+    destruct Hj2 as [(pj & c & ms & Hnj) | (pj & tpj & tj & paj & wj & Hnj)]; rewrite Hnj; simpl is_alias_node; cbv iota.
+    - apply Done. simpl. subst L. simpl. rewrite nth_update_other by auto. rewrite Hnj. auto.
+    - pose proof (forallb_nth _ _ _ _ _ Hc2 Hnj) as Cj. simpl in Cj.
+      destruct (chain_end L h2 tj [pj]) as [o|] eqn:Ej; try discriminate.
+      assert (E0 : chain_end L h2 (RReal j) [] = Some o).
+      { apply (chain_end_fuel (S L)). simpl. rewrite Hnj. simpl. auto.
+        rewrite cnt_unseen_nil. simpl. lia. }
+      rewrite (final_target_pure rt L h3 (RReal j) [] o).
+      2:{ unfold h3. eapply chain_end_update_unres; eauto. }
+      apply Done. simpl.
+      assert (Hq : forall k pk tpk tk pak wk, nth_error h2 k = Some (NAlias pk tpk (Some tk) pak wk) -> pk <> p).
+      { intros k pk tpk tk pak wk Hk E. subst pk.
+        assert (k = i) by (eapply (unique_paths_inj h2 k i); eauto). subst k. rewrite Hn2 in Hk. discriminate. }
+      assert (Hseen : forall s, s <> p -> mem_str s [p] = mem_str s []).
+      { intros s Hs. simpl. apply String.eqb_neq in Hs. rewrite Hs. auto. }
+      assert (E1 : chain_end L h2 (RReal j) [p] = Some o).
+      { eapply (chain_end_seen L h2 p (RReal j) [] [p]); eauto. eapply direct_no_virt; eauto. }
+      erewrite chain_end_update_unres; eauto. }
+  unfold tail in Tail.
+  destruct (nth_error hh j) as [[pj c ms | pj tpj [tj|] paj wj]|] eqn:Hnj.
+  - apply (Tail hh HIh (R_refl hh)). left. eauto.
+  - apply (Tail hh HIh (R_refl hh)). right. red. eauto 10.
+  - destruct (Hrt hh j pj tpj paj wj HIh Hnj) as [(A & B & C & D) | (e & He & Hh2)];
+      unfold aon_result in *; destruct (rt hh j) as [h2 u].
+    + simpl in A, B, C, D. subst u. apply (Tail h2 B C). auto.
+    + simpl in He, Hh2. subst u. rewrite Hh2. right. exists e. simpl. auto.
+  - apply nth_error_None in Hnj. lia.
+Qed.
+
+Theorem resolve_target_aon : forall coll L n, aon_spec coll L (resolve_target coll L n).
+Proof.
+  induction n.
+  - intros h i p tp pa w _ _. right. exists EFuel. simpl. auto.
+  - simpl. apply resolve_body_aon. auto.
+Qed.
+
+(* All-or-nothing, modulo the two known gaps (KnownGap_passthrough = direct false, KnownGap_preresolved =
+   chains_complete false): resolve_target either resolves the alias and leaves every stored chain complete, or fails
+   and leaves the heap exactly as it was. *)
+Theorem all_or_nothing_modulo_known : forall coll h i p tp pa w,
+  wf coll h = true -> direct coll h = true -> chains_complete h = true -> unique_paths h = true ->
+  nth_error h i = Some (NAlias p tp None pa w) ->
+  let h' := fst (resolve_top coll h i) in
+  let r := snd (resolve_top coll h i) in
+  (r = Ok tt /\ resolved_in h' i /\ wf coll h' = true /\ direct coll h' = true /\ chains_complete h' = true /\
+   unique_paths h' = true /\ flags h' = flags h) \/
+  (exists e, r = Err e /\ h' = h).
+Proof.
+  intros coll h i p tp pa w Hw Hd Hc Hu Hn. unfold resolve_top. cbv zeta.
+  assert (HI : Inv coll (fuelL h) h).
+  { split; auto. split; auto. split; auto. split; auto. unfold fuelL. lia. }
+  destruct (resolve_target_aon coll (fuelL h) (fuelN h) h i p tp pa w HI Hn)
+    as [(A & (B1 & B2 & B3 & B4 & B5) & C & D) | E]; auto.
+  set (h' := fst (resolve_target coll (fuelL h) (fuelN h) h i)) in *.
+  left. split; auto. split; auto. split; auto. split; auto. split.
+  - unfold chains_complete. assert (F : fuelL h' = fuelL h) by (unfold fuelL; rewrite (R_count_aliases _ _ C); auto).
+    rewrite F. exact B3.
+  - split; auto. apply R_flags; auto.
+Qed.
+
+(* on a heap whose stored chains are complete, dereferencing a resolved alias is pure and reaches a real object *)
+Theorem complete_deref : forall coll h i p tp t pa w,
+  chains_complete h = true -> nth_error h i = Some (NAlias p tp (Some t) pa w) ->
+  exists o, deref_top coll h i = (h, Ok o) /\ exists po c ms, nth_error h o = Some (NObj po c ms).
+Proof.
+  intros coll h i p tp t pa w Hc Hn. unfold chains_complete, chains_complete_L in Hc.
+  pose proof (forallb_nth _ _ _ _ _ Hc Hn) as Ci. simpl in Ci.
+  destruct (chain_end (fuelL h) h t [p]) as [o|] eqn:E; try discriminate.
+  assert (E0 : chain_end (fuelL h) h (RReal i) [] = Some o).
+  { apply (chain_end_fuel (S (fuelL h))). simpl. rewrite Hn. simpl. auto.
+    rewrite cnt_unseen_nil. unfold fuelL. simpl. lia. }
+  exists o. split. unfold deref_top. apply final_target_pure; auto.
+  clear - E. revert E. generalize (fuelL h) [p] t. induction n; intros seen r E; simpl in E. discriminate.
+  destruct r as [k | vp k].
+  - destruct (nth_error h k) as [[po c ms | pk tpk [tk|] pak wk]|] eqn:Hk; try discriminate.
+    + inversion E; subst. eauto.
+    + destruct (mem_str pk seen); try discriminate. eauto.
+  - destruct (mem_str vp seen); try discriminate. eauto.
+Qed.
+
+Lemma hypotheses_satisfiable :
+  wf w_plain_coll w_plain_heap = true /\ direct w_plain_coll w_plain_heap = true /\
+  chains_complete w_plain_heap = true /\ unique_paths w_plain_heap = true /\ no_passed w_plain_heap = true /\
+  snd (resolve_top w_plain_coll w_plain_heap 1) = Ok tt /\
+  snd (resolve_top w_plain_coll w_plain_heap 5) = Err ECyc /\
+  snd (resolve_top w_plain_coll w_plain_heap 7) = Err (EARE "p.z") /\
+  snd (resolve_aliases w_plain_coll w_plain_heap) = Ok (["p.z"], 2).
+Proof. pose proof plain_hypotheses. pose proof plain_outcomes. tauto. Qed.
